@@ -60,7 +60,9 @@ fn cond_shape(s: &Value, selftest: bool) -> Vec<Value> {
         Ok(x) => x,
         Err(e) => return skip(e),
     };
-    let b = match build_inner_full(&prog, &cfg, &inputs, 1, pad - 1, false) {
+    // the second circuit gets other inputs where the program allows it, so that the two proofs differ in every opening
+    let inputs_b: Vec<u64> = inputs.iter().map(|x| x.wrapping_add(1) % vh::refarith::GOLDILOCKS).collect();
+    let b = match build_inner_full(&prog, &cfg, &inputs_b, 1, pad - 1, false).or_else(|_| build_inner_full(&prog, &cfg, &inputs, 1, pad - 1, false)) {
         Ok(x) => x,
         Err(e) => return skip(format!("second circuit: {e}")),
     };
@@ -149,7 +151,7 @@ fn cond_shape(s: &Value, selftest: bool) -> Vec<Value> {
         Err(p) => return skip(format!("conditional circuit build panic: {}", p.chars().take(140).collect::<String>())),
     };
     let constants = oracle::constants_by_row(&outer.prover_only, &outer.common);
-    out.push(json!({"id": id, "or_dummy": or_dummy, "inner_cap_height": common.config.fri_config.cap_height, "shape": {"inner_degree_bits": common.degree_bits(), "outer_degree_bits": outer.common.degree_bits(),
+    out.push(json!({"id": id, "or_dummy": or_dummy, "inner_cap_height": common.config.fri_config.cap_height, "lookup_openings": lookup_info, "shape": {"inner_degree_bits": common.degree_bits(), "outer_degree_bits": outer.common.degree_bits(),
         "build_ms": t0.elapsed().as_millis() as u64, "dummy_circuit": dummy.is_ok(), "dummy_panic": dummy.as_ref().err(),
         "binding_bits": cfg.binding_bits(), "inner_pis": common.num_public_inputs, "layers": common.fri_params.reduction_arity_bits}}));
     out.extend(or_dummy_rows);
